@@ -349,7 +349,7 @@ def run(ctx):
         b = clirun.run_cli('cnfgen', ['peb', 'kthlist', p] + (['-T'] + tr if tr else []))
 
         def body(x):
-            return [ln for ln in x['out'].decode().split('\n') if not ln.startswith('c')]
+            return [ln for ln in x['out'].decode().split('\n') if ln.strip() and not ln.startswith('c')]
         ctx.count('kthlist2pebbling-vs-peb', (p, tuple(tr)), nontrivial=True, sample=dict(file=open(p).read(), transformation=tr))
         if a['rc'] != b['rc'] or body(a) != body(b):
             ctx.violation('counterexample', 'kthlist2pebbling differs from cnfgen peb on the same file', dict(input=dict(file=open(p).read(), transformation=tr),
@@ -361,7 +361,7 @@ def run(ctx):
                           output=q['out'].decode()[:300]), True, site='kthlist2pebbling', cls='quiet-ignored')
     opt_cases = []
     for _ in range(8 if quick else 80):
-        argv, lib = rng.choice(cases)
+        argv, lib = rng.choice([c for c in cases if 'save' not in c[0] and '--seed' not in c[0]])
         opt_cases.append((argv, lib))
     for argv, lib in opt_cases:
         b = outcome(lambda: lib(CNF))
